@@ -52,7 +52,7 @@ func New(t *rapid.T) *G {
 }
 
 func (g *G) n(label string, lo, hi int) int { return rapid.IntRange(lo, hi).Draw(g.T, label) }
-func (g *G) pct(label string, p int) bool    { return p > 0 && rapid.IntRange(0, 99).Draw(g.T, label) < p }
+func (g *G) pct(label string, p int) bool   { return p > 0 && rapid.IntRange(0, 99).Draw(g.T, label) < p }
 
 var smallInts = []int64{0, 1, 2, 3, 5, 7, -1, -2, 10}
 var hostileInts = []int64{0, 1, -1, 2, -2, 1 << 31, -(1 << 31), 1 << 53, 1<<53 + 1, -(1<<53 + 1), math.MaxInt64, math.MaxInt64 - 1, math.MinInt64}
